@@ -87,4 +87,9 @@ SPECS = {
         "info_meaning": "[cases whose traced schema is inside the builder model; cases fully judged by decode = interp]",
         "assumptions": ["documented exclusions are not counted: sample strings that only look like dates under guess_dates, unsigned values above the signed 64-bit range mixed with signed numbers under coerce_numbers, null for an enum-typed position", "the tracer model itself is compared with the crate in the C07/C08 runs (RunC07)"],
     },
+    "C09": {
+        "id": "C09", "runners": ["RunC09"],
+        "info_meaning": "[cases read by the parser model; cases whose tree is compared with the printer model; cases the crate accepts]",
+        "assumptions": ["identifiers and white space of the type mini language are modelled for ASCII text (the printer only emits ASCII names); trees with non-ASCII text are judged by the Rust-side round trips only", "time zone text is printed with Rust's {:?}: the model covers quote and backslash escapes; control and non-ASCII characters (\\u{..} escapes) are judged by the Rust-side round trips", "arrow / arrow2 field conversions are marrow's (external): differential only"],
+    },
 }
